@@ -1,5 +1,6 @@
 import ShootVerif.Drive.Loop
 import ShootVerif.Drive.Cli
 import ShootVerif.Drive.Phases
+import ShootVerif.Drive.Fs
 open ShootVerif.Drive
-def main : IO Unit := runDriver [("cli16", cli16Case), ("cli18", cli18Case)]
+def main : IO Unit := runDriver [("cli16", cli16Case), ("cli18", cli18Case), ("fs17", fs17Case)]
